@@ -194,7 +194,10 @@ def _gen_ops(rng, tier):
         elif r < 0.68 and n < 9:
             L = lens[t]
             step = rng.choice([None, None, None, 1, 2, -1, -1, -2, 3, -3, 0])
-            ops.append(["slice", t, _slice_arg(rng, L), _slice_arg(rng, L), step])
+            if rng.random() < 0.25:      # the whole monitor, forwards or backwards: a result as long as its source
+                ops.append(["slice", t, None, None, rng.choice([-1, -1, None])])
+            else:
+                ops.append(["slice", t, _slice_arg(rng, L), _slice_arg(rng, L), step])
             if step != 0:
                 lens.append(L)   # upper bound only (used to aim indices)
         elif r < 0.8 and n < 9:
@@ -429,6 +432,8 @@ def _run_ops(case):
                     store[o[1]].extend(store[o[2]])
                 elif o[0] == "prepend":
                     store[o[1]].prepend(store[o[2]])
+                for m_ in store:          # the user looks at every monitor between operations (reading must not change what is read later)
+                    m_.y, m_.x, m_.id
                 flags.append(True)
             except (MemoryError, CaseTimeout):
                 store = None      # release whatever blew up before reporting
